@@ -6,12 +6,12 @@
 //! its invocation and stamps its buffers.
 
 use crate::glike::{GraphLike, Mirror};
-use dasp_graph::{Buffer, Input, Node, NodeData, Processor};
+use dasp_graph::{BoxedNode, BoxedNodeSend, Buffer, Input, Node, NodeData, Processor};
 use petgraph::graph::{Graph, NodeIndex};
 use petgraph::stable_graph::StableGraph;
 use simcore::{check, check_eq, Observer, Op, OpSpec, Rng, Scenario, Source, Violation};
-use std::cell::{Cell, RefCell};
-use std::rc::Rc;
+use std::sync::atomic::{AtomicU32, Ordering};
+use std::sync::{Arc, Mutex};
 
 pub struct GraphScenario;
 
@@ -66,20 +66,52 @@ struct Call {
     inputs: Vec<(usize, usize, f32, f32)>,
 }
 
-type Log = Rc<RefCell<Vec<Call>>>;
+type Log = Arc<Mutex<Vec<Call>>>;
 
 pub struct ProbeNode {
     tag: u32,
     log: Log,
-    call: Rc<Cell<u32>>,
+    call: Arc<AtomicU32>,
     /// fault injection: the node with this tag fails (panics) the next time it is invoked
-    fail_tag: Rc<Cell<u32>>,
+    fail_tag: Arc<AtomicU32>,
+}
+
+/// How the probe node is stored in the graph: bare, or behind one of the library's wrappers
+/// (single-threaded use throughout; the shared handles are `Send` only so that `BoxedNodeSend`
+/// accepts the node).
+pub trait Holder: Node + Sized + 'static {
+    const NAME: &'static str;
+    fn hold(p: ProbeNode) -> Self;
+}
+impl Holder for ProbeNode {
+    const NAME: &'static str = "ProbeNode";
+    fn hold(p: ProbeNode) -> Self {
+        p
+    }
+}
+impl Holder for BoxedNode {
+    const NAME: &'static str = "BoxedNode";
+    fn hold(p: ProbeNode) -> Self {
+        BoxedNode::new(p)
+    }
+}
+impl Holder for BoxedNodeSend {
+    const NAME: &'static str = "BoxedNodeSend";
+    fn hold(p: ProbeNode) -> Self {
+        BoxedNodeSend::new(p)
+    }
+}
+impl Holder for Box<dyn Node> {
+    const NAME: &'static str = "Box<dyn Node>";
+    fn hold(p: ProbeNode) -> Self {
+        Box::new(p)
+    }
 }
 
 impl Node for ProbeNode {
     fn process(&mut self, inputs: &[Input], output: &mut [Buffer]) {
-        if self.fail_tag.get() == self.tag {
-            self.fail_tag.set(0);
+        if self.fail_tag.load(Ordering::Relaxed) == self.tag {
+            self.fail_tag.store(0, Ordering::Relaxed);
             panic!("injected node failure");
         }
         let ins = inputs
@@ -90,7 +122,7 @@ impl Node for ProbeNode {
                 (b.as_ptr() as usize, b.len(), t, c)
             })
             .collect();
-        self.log.borrow_mut().push(Call {
+        self.log.lock().unwrap_or_else(|e| e.into_inner()).push(Call {
             tag: self.tag,
             own_ptr: output.as_ptr() as usize,
             own_len: output.len(),
@@ -98,7 +130,7 @@ impl Node for ProbeNode {
         });
         if let Some(b) = output.first_mut() {
             b[0] = self.tag as f32;
-            b[1] = self.call.get() as f32;
+            b[1] = self.call.load(Ordering::Relaxed) as f32;
         }
     }
 }
@@ -162,7 +194,7 @@ fn gen_op(r: &mut Rng, g: &mut Gen, live: usize, edges: usize) -> Option<Op> {
     })
 }
 
-fn drive<G: GraphLike<ProbeNode>>(src: &mut Source, obs: &mut Observer) -> Result<(), Violation> {
+fn drive<H: Holder, G: GraphLike<H>>(src: &mut Source, obs: &mut Observer) -> Result<(), Violation> {
     let cap = src.cfg("processor_capacity", 0, 12, |r| r.range(0, 12)) as usize;
     let mut gen = Gen {
         // rare big graphs: the visit maps are bit sets in 32-bit blocks, so 33 and 65 nodes are thresholds
@@ -178,9 +210,9 @@ fn drive<G: GraphLike<ProbeNode>>(src: &mut Source, obs: &mut Observer) -> Resul
     gen.init = src.cfg("init_ops", 0, 200, |r| if big { r.range(60, 200) } else { r.range(0, 24) });
     gen.steps = src.cfg("steps", 0, 300, |r| if big { gen.init as i64 as i64 + r.range(10, 100) } else { r.range(2, 60) }) as usize;
     let max_edges = 24.max(gen.max_nodes * 2);
-    let log: Log = Rc::new(RefCell::new(Vec::new()));
-    let call = Rc::new(Cell::new(0u32));
-    let fail_tag = Rc::new(Cell::new(0u32));
+    let log: Log = Arc::new(Mutex::new(Vec::new()));
+    let call = Arc::new(AtomicU32::new(0));
+    let fail_tag = Arc::new(AtomicU32::new(0));
     let mut next_tag = 1u32;
     let mut worlds: Vec<World<G>> = (0..2)
         .map(|_| World {
@@ -233,7 +265,7 @@ fn drive<G: GraphLike<ProbeNode>>(src: &mut Source, obs: &mut Observer) -> Resul
                     call: call.clone(),
                     fail_tag: fail_tag.clone(),
                 };
-                let idx = w.g.add(NodeData::new(node, vec![Buffer::SILENT; nbuf]));
+                let idx = w.g.add(NodeData::new(H::hold(node), vec![Buffer::SILENT; nbuf]));
                 w.m.add_at(idx.index(), NodeM { tag, nbuf });
                 if w.m.live().len() == 10 {
                     obs.probe(P_TEN_NODES);
@@ -313,21 +345,21 @@ fn drive<G: GraphLike<ProbeNode>>(src: &mut Source, obs: &mut Observer) -> Resul
                     continue;
                 };
                 obs.tick(op.k);
-                call.set(call.get() + 1);
-                if call.get() > 1 {
+                call.fetch_add(1, Ordering::Relaxed);
+                if call.load(Ordering::Relaxed) > 1 {
                     obs.inflight();
                 }
                 let mut up: Vec<usize> = Vec::new();
                 if !missing {
                     up = w.m.upstream(target.index());
                     let victim = pick(op.b).unwrap();
-                    fail_tag.set(w.m.slots[victim].as_ref().unwrap().tag);
+                    fail_tag.store(w.m.slots[victim].as_ref().unwrap().tag, Ordering::Relaxed);
                 }
-                log.borrow_mut().clear();
+                log.lock().unwrap_or_else(|e| e.into_inner()).clear();
                 let g = &mut w.g;
                 let r = std::panic::catch_unwind(std::panic::AssertUnwindSafe(|| g.run(&mut p, target)));
-                let victim_tag = fail_tag.replace(0);
-                let calls = std::mem::take(&mut *log.borrow_mut());
+                let victim_tag = fail_tag.swap(0, Ordering::Relaxed);
+                let calls = std::mem::take(&mut *log.lock().unwrap_or_else(|e| e.into_inner()));
                 if missing {
                     obs.fault(F_MISSING_INDEX);
                     // what such a call does is not part of the property (today: the documented panic);
@@ -386,8 +418,8 @@ fn drive<G: GraphLike<ProbeNode>>(src: &mut Source, obs: &mut Observer) -> Resul
                 };
                 obs.tick(op.k);
                 obs.note(out as u64);
-                call.set(call.get() + 1);
-                let this_call = call.get();
+                call.fetch_add(1, Ordering::Relaxed);
+                let this_call = call.load(Ordering::Relaxed);
                 if this_call > 1 {
                     obs.inflight();
                 }
@@ -433,9 +465,9 @@ fn drive<G: GraphLike<ProbeNode>>(src: &mut Source, obs: &mut Observer) -> Resul
                     obs.probe(P_DIAMOND);
                 }
 
-                log.borrow_mut().clear();
+                log.lock().unwrap_or_else(|e| e.into_inner()).clear();
                 w.g.run(&mut p, NodeIndex::new(out));
-                let calls = std::mem::take(&mut *log.borrow_mut());
+                let calls = std::mem::take(&mut *log.lock().unwrap_or_else(|e| e.into_inner()));
 
                 // 1. exactly the upstream set, each exactly once
                 let mut got_tags: Vec<u32> = calls.iter().map(|c| c.tag).collect();
@@ -522,8 +554,6 @@ fn drive<G: GraphLike<ProbeNode>>(src: &mut Source, obs: &mut Observer) -> Resul
         let w = &worlds[active];
         assert_eq!(w.g.count(), w.m.live().len(), "harness mirror: node count");
         for n in w.m.live() {
-            let tag = w.g.weight(NodeIndex::new(n)).map(|d| d.node.tag);
-            assert_eq!(tag, Some(w.m.slots[n].as_ref().unwrap().tag), "harness mirror: tag at index {}", n);
             let nb = w.g.weight(NodeIndex::new(n)).map(|d| d.buffers.len());
             assert_eq!(nb, Some(w.m.slots[n].as_ref().unwrap().nbuf), "harness mirror: buffer count at index {}", n);
         }
@@ -594,10 +624,18 @@ impl Scenario for GraphScenario {
     fn run(&self, src: &mut Source, obs: &mut Observer) -> Result<(), Violation> {
         let stable = src.cfg("stable_graph", 0, 1, |r| r.range(0, 1)) == 1;
         obs.note(stable as u64);
-        if stable {
-            drive::<StableGraph<NodeData<ProbeNode>, ()>>(src, obs)
-        } else {
-            drive::<Graph<NodeData<ProbeNode>, ()>>(src, obs)
+        // how the nodes are held: mostly bare, sometimes behind each of the library's wrappers
+        let holder = src.cfg("holder", 0, 3, |r| if r.chance(1, 2) { 0 } else { r.range(1, 3) });
+        obs.note(holder as u64);
+        match (stable, holder) {
+            (true, 0) => drive::<ProbeNode, StableGraph<NodeData<ProbeNode>, ()>>(src, obs),
+            (false, 0) => drive::<ProbeNode, Graph<NodeData<ProbeNode>, ()>>(src, obs),
+            (true, 1) => drive::<BoxedNode, StableGraph<NodeData<BoxedNode>, ()>>(src, obs),
+            (false, 1) => drive::<BoxedNode, Graph<NodeData<BoxedNode>, ()>>(src, obs),
+            (true, 2) => drive::<BoxedNodeSend, StableGraph<NodeData<BoxedNodeSend>, ()>>(src, obs),
+            (false, 2) => drive::<BoxedNodeSend, Graph<NodeData<BoxedNodeSend>, ()>>(src, obs),
+            (true, _) => drive::<Box<dyn Node>, StableGraph<NodeData<Box<dyn Node>>, ()>>(src, obs),
+            (false, _) => drive::<Box<dyn Node>, Graph<NodeData<Box<dyn Node>>, ()>>(src, obs),
         }
     }
 }
